@@ -56,6 +56,8 @@ type cycleEvent struct {
 	Outcome string `json:"outcome"` // result | error | panic | hang | exit
 	Sig     string `json:"sig"`
 	Detail  string `json:"detail"`
+	// OverrunMS: how long after the END of its context the cycle returned (0 if it returned before)
+	OverrunMS int `json:"overrunms"`
 }
 
 const (
@@ -248,6 +250,12 @@ func hostileChild(args []string) error {
 		return fmt.Errorf("unknown feeder %q", s.Feeder)
 	}
 	srv := httptest.NewServer(http.HandlerFunc(func(rw http.ResponseWriter, r *http.Request) {
+		// "throttled": the server asks for patience (429 with Retry-After: 30) - however polite the feeder is, it stops when its context ends
+		if (r.URL.Path == cpPath && s.CP == "throttled") || (r.URL.Path != cpPath && s.Data == "throttled") {
+			rw.Header().Set("Retry-After", "30")
+			http.Error(rw, "slow down", http.StatusTooManyRequests)
+			return
+		}
 		if r.URL.Path == cpPath {
 			status, body := hostileCheckpoint(w, l, s.CP, rng)
 			if s.Feeder == "rekor" && status == 200 && s.CP != "random" && s.CP != "oversized" && s.CP != "empty" && s.CP != "truncated" && !strings.HasPrefix(s.CP, "json-") {
@@ -280,6 +288,12 @@ func hostileChild(args []string) error {
 	feed := map[string]func(context.Context, config.Log, feeder.Witness, *http.Client, time.Duration) error{
 		"sumdb": sumdb.FeedLog, "tiles": tiles.FeedLog, "serverless": serverless.FeedLog, "pixel": pixelbt.FeedLog, "rekor": rekor.FeedLog}[s.Feeder]
 	var ferr error
+	cycleStart := time.Now()
+	defer func() {
+		if over := time.Since(cycleStart) - 1200*time.Millisecond; over > 0 {
+			say("OVERRUN %d", over.Milliseconds())
+		}
+	}()
 	if shards == 1 {
 		ferr = feed(ctx, lc, witnessAdapterOf(wit), &http.Client{Timeout: 2 * time.Second}, 0)
 	} else {
@@ -415,10 +429,10 @@ func runHostileChild(self string, s hostileScen, seed int64, deadline time.Durat
 	}
 	for _, l := range strings.Split(out.String(), "\n") {
 		if strings.HasPrefix(l, "OUTCOME result") {
-			return "result", ""
+			return "result", overrunNote(out.String())
 		}
 		if strings.HasPrefix(l, "OUTCOME error") {
-			return "error", l
+			return "error", l + overrunNote(out.String())
 		}
 	}
 	if strings.Contains(out.String(), "panic:") || strings.Contains(out.String(), "fatal error:") {
@@ -429,6 +443,16 @@ func runHostileChild(self string, s hostileScen, seed int64, deadline time.Durat
 		return "exit", out.String()
 	}
 	return "exit", out.String()
+}
+
+// overrunNote passes the child's OVERRUN line on inside the detail string (" OVERRUN=<ms>").
+func overrunNote(out string) string {
+	for _, l := range strings.Split(out, "\n") {
+		if strings.HasPrefix(l, "OVERRUN ") {
+			return " OVERRUN=" + strings.TrimPrefix(l, "OVERRUN ")
+		}
+	}
+	return ""
 }
 
 func hostileMain(args []string) error {
@@ -483,6 +507,9 @@ func hostileMain(args []string) error {
 			}
 			if outcome == "result" || outcome == "error" {
 				res[i].Sig = "-"
+			}
+			if j := strings.LastIndex(detail, " OVERRUN="); j >= 0 {
+				fmt.Sscanf(detail[j+9:], "%d", &res[i].OverrunMS)
 			}
 		}(i, s)
 	}
